@@ -238,11 +238,18 @@ def oracle(ds, call, obs):
     req_start = other if base else cut
     gap_end = req_end is not None and max(ts) < req_end
     gap_start = req_start is not None and req_start < min(ts)
+    # which option moved the compared limit onto the data (the only way the code is known to drop a gap warning)
+    end_mover = ("ignore_billing_period_gap_for_day_count" if call["ignore_gap"] else None) if base else \
+                ("allow_billing_period_overshoot" if call["overshoot"] else None)
+    start_mover = ("allow_billing_period_overshoot" if call["overshoot"] else None) if base else \
+                  ("ignore_billing_period_gap_for_day_count" if call["ignore_gap"] else None)
     if obs["warn_end"] != gap_end:
-        fails.append((dict(sig0, broken="end-gap warning", warning="missing" if gap_end else "spurious"),
+        fails.append((dict(sig0, broken="end-gap warning", warning="missing" if gap_end else "spurious",
+                           limit_moved_by=end_mover if gap_end else None),
                       "gap at the requested end %s" % ("not reported" if gap_end else "reported without a gap")))
     if obs["warn_start"] != gap_start:
-        fails.append((dict(sig0, broken="start-gap warning", warning="missing" if gap_start else "spurious"),
+        fails.append((dict(sig0, broken="start-gap warning", warning="missing" if gap_start else "spurious",
+                           limit_moved_by=start_mover if gap_start else None),
                       "gap at the requested start %s" % ("not reported" if gap_start else "reported without a gap")))
     return fails
 
